@@ -163,6 +163,7 @@ type merged struct {
 	violations                            []string
 	wall                                  float64
 	logXor                                uint64
+	sysTotal                              uint64
 }
 
 func newMerged() *merged {
@@ -202,6 +203,9 @@ func (m *merged) add(r *detsim.BatchResult) {
 		m.wall = r.WallS
 	}
 	m.logXor ^= r.LogHashXor
+	if r.SystematicTotal > m.sysTotal {
+		m.sysTotal = r.SystematicTotal
+	}
 }
 
 // runBatch fans a range of run indices out to worker processes.
